@@ -7,8 +7,10 @@ package verifier
 
 import (
 	"context"
+	"crypto/sha256"
 	"crypto/x509"
 	"errors"
+	"hash"
 	"time"
 
 	"github.com/notaryproject/notation-core-go/revocation"
@@ -23,6 +25,23 @@ import (
 
 //vsym:stub github.com/notaryproject/notation-core-go/signature.ParseEnvelope = kitParseEnvelope
 //vsym:stub github.com/notaryproject/notation-core-go/revocation.NewWithOptions = kitNewDefaultValidator
+
+//vsym:stub crypto/sha256.New = kitNewSHA256
+
+// kitSHA256: the streaming form of sha256.Sum256 (code that fingerprints through a hash.Hash): what was written
+// is digested when the sum is asked for.
+type kitSHA256 struct{ buf []byte }
+
+func (h *kitSHA256) Write(p []byte) (int, error) { h.buf = append(h.buf, p...); return len(p), nil }
+func (h *kitSHA256) Sum(b []byte) []byte {
+	d := sha256.Sum256(h.buf)
+	return append(b, d[:]...)
+}
+func (h *kitSHA256) Reset()         { h.buf = nil }
+func (h *kitSHA256) Size() int      { return 32 }
+func (h *kitSHA256) BlockSize() int { return 64 }
+
+func kitNewSHA256() hash.Hash { return &kitSHA256{} }
 
 const (
 	kitJWS  = "application/jose+json"
